@@ -25,7 +25,7 @@ def run(ctx):
     ctx.assume('thresholds never equal an attained best chi^2 (per point) and are finite and non-zero', 'every record has at least one fit (a best chi^2 exists)',
                'a zero-byte output file means no records')
     ctx.require_events('split:checked', 'metadata:checked')
-    ctx.require_regimes('input:name-re-used-with-another-set-up', 'all-good', 'all-bad', 'mixed', 'criterion:chi', 'criterion:cpd', 'names:auto', 'names:explicit', 'input:file', 'input:list',
+    ctx.require_regimes('call:positional-arguments:chi', 'call:positional-arguments:cpd', 'input:name-re-used-with-another-set-up', 'all-good', 'all-bad', 'mixed', 'criterion:chi', 'criterion:cpd', 'names:auto', 'names:explicit', 'input:file', 'input:list',
                         'best:nan', 'best:inf', 'n_data=1', 'flag-4-points', 'nan-suffix', 'names:mixed', 'outputs:re-used-names', 'flags-changed-after-n_data-was-read', 'threshold:close-to-attained-value')
     d = ctx.newdir('c18')
     n_models, nb = 5, 8
@@ -157,7 +157,12 @@ def run(ctx):
                 continue
         try:
             with effects.trace() as tr:
-                filter_output(inp, **kw, **{crit: thr})
+                if ic % 2 == 0:
+                    filter_output(inp, **kw, **{crit: thr})
+                else:          # the same call with positional arguments, in the documented order (input, good, bad, chi, cpd)
+                    pos = (inp, kw.get('output_good', 'auto'), kw.get('output_bad', 'auto')) + ((thr,) if crit == 'chi' else (None, thr))
+                    filter_output(*pos)
+                    ctx.regime('call:positional-arguments:' + crit)
         except Exception as exc:
             ctx.raised(exc, 'filter_output:raised:%s' % type(exc).__name__, 'filter_output raised: %r' % (exc,), wit)
             continue
